@@ -136,7 +136,7 @@ func runRefill(rt tb, rec *evi.Recorder, tg refillTarget, maxRefills int, allowE
 	}
 	defer s.close()
 	lf := max(1, min(time.Since(t0)/(10*time.Millisecond), 6))
-	stallBound, stopBound := c21Bound*lf, c21StopBound*lf
+	stallBound, stopBound := c21Bound*lf, c21StopBound*min(lf, 2)
 	client := s.oc.ChainSync().Client
 	proto := protoChainSyncNtC
 	mode := "ntc"
@@ -279,7 +279,10 @@ func runRefill(rt tb, rec *evi.Recorder, tg refillTarget, maxRefills int, allowE
 		time.Sleep(min(20*time.Millisecond*lf, 300*time.Millisecond))
 		returned := false
 		deadline := time.Now().Add(stopBound)
-		fillerCap := base + 4*tg.limit + 50
+		// Everything on the wire is answered except the very last request of this
+		// batch: its answer would start the next refill, whose first segment may
+		// leave the send queue exactly full - the excluded known state.
+		fillerCap := base + tg.limit - 1
 		for !returned && time.Now().Before(deadline) {
 			select {
 			case <-stopCh:
@@ -299,15 +302,15 @@ func runRefill(rt tb, rec *evi.Recorder, tg refillTarget, maxRefills int, allowE
 			}
 		}
 		if !returned {
-			answeredAll := srv.reqs <= srv.sent
-			if lf >= 4 || !answeredAll {
+			answeredAll := srv.reqs <= srv.sent || (srv.sent == fillerCap && srv.reqs == fillerCap+1)
+			if lf >= 5 || !answeredAll {
 				// a machine this slow (or a peer that could not finish answering) proves nothing
 				rec.Class("refill_stop_inconclusive_slow")
 				return st
 			}
 			key := fmt.Sprintf("stop:hang-%s:limit=%d", map[string]string{"mid": "mid-refill", "room": "after-refill", "exact": "send-queue-exactly-full"}[st], tg.limit)
-			fail(key, fmt.Sprintf("Stop() called during refill %d (limit %d, first segment %d requests, state %q: %d still unqueued / %d queued, %d answered before Stop) did not return within %v although the peer answered all %d requests on the wire; %d callbacks",
-				m+1, tg.limit, k, st, max(0, tg.limit-k-80), min(80, tg.limit-k), j, stopBound, srv.reqs, callbacks()), dump())
+			fail(key, fmt.Sprintf("Stop() called during refill %d (limit %d, first segment %d requests, state %q: %d still unqueued / %d queued, %d answered before Stop) did not return within %v although the peer answered %d of the %d requests on the wire (only the last answer of the batch is held back); %d callbacks",
+				m+1, tg.limit, k, st, max(0, tg.limit-k-80), min(80, tg.limit-k), j, stopBound, srv.sent, srv.reqs, callbacks()), dump())
 			return st
 		}
 		rec.Class(fmt.Sprintf("refill_stop_returned:%s", st))
